@@ -162,6 +162,18 @@ CHECKS = {
              "of the Fraction registry (as residues), the symbol and the dimensionality; the float registry must agree within 4 ulp.",
         design_ref="DESIGN.md section 3, C20",
         note="This is the thinnest use of the technique: the specification is the table. Units outside the table are not covered."),
+    "C16": dict(
+        technique="TLA+ spec (NumpyPlan: hand-written unit plans with NumPy uninterpreted) model-checked with TLC; every TLC state executed with real NumPy on seeded arrays; covariance sweep over the functions pint handles",
+        text="TLC checks for 47 functions x all unit assignments over {m, cm, s, ms, rad, quarter-turn, none, percent} that the output unit carries the "
+             "exponents of the function's homogeneity degrees, that acceptance does not depend on the units chosen, that incompatible / non-angle / "
+             "non-dimensionless inputs are refused and that predicates and index results are bare; each of the 1.5k states is executed on seeded random "
+             "arrays: np.f(Quantity...) must have the plan's unit and np.f of the plan-converted magnitudes as magnitude, must leave its inputs "
+             "unchanged, or must raise DimensionalityError; a sweep over ~150 call templates (functions, ufuncs, methods, keyword forms) checks "
+             "that re-expressing the inputs in other compatible units leaves the physical result and the error kind unchanged, that incompatible "
+             "inputs raise and offset units are refused.",
+        design_ref="DESIGN.md section 3, C16",
+        note="Numerical agreement with NumPy is harness arithmetic (rtol 1e-12 / 1e-9); the rounding family rounds in the unit it is given by design "
+             "and is exempt from the re-expression clause."),
     "C17": dict(
         technique="TLA+ spec (Wraps: binding by name vs the library's index arithmetic, conversion plan, return wrapping, check) model-checked with TLC; every TLC state executed on real decorated functions in several call styles",
         text="TLC checks for every specification over {unit, None, '=A' (definition / later reference), '=A**2'} x arguments {m, cm, s quantities, bare "
